@@ -769,10 +769,11 @@ class Overlay(Widget, WidgetContainerMixin, WidgetContainerListContentsMixin, ty
         coords = self.top_w.get_cursor_coords(self.top_w_size(real_size, left, right, top, bottom))
         if coords is None:
             return None
-        x, y = coords
-        if y >= maxrow:  # required??
-            y = maxrow - 1
-        return x + left, y + top
+        x, y = coords[0] + left, coords[1] + top
+        if not (0 <= x < maxcol and 0 <= y < maxrow):
+            # the part of the top widget that holds the cursor is clipped away: the rendering shows no cursor
+            return None
+        return x, y
 
     def calculate_padding_filler(
         self,
